@@ -111,6 +111,7 @@ def _mentions_rowcount(n: ast.AST) -> bool:
 
 def _store_stage_shape(rel: str, fn: ast.FunctionDef, prefix: str, conn_name: str) -> list[str]:
     """Shape of one copy of store_stage."""
+    T.unfold_inlined_temp(fn, "exists", "result.fetchone() is not None")
     # the `if exists:` statement
     top = [s for s in fn.body if isinstance(s, ast.If) and ast.unparse(s.test) == "exists"]
     if len(top) != 1:
